@@ -9,6 +9,7 @@ TRUSTED_BASE = [
 
 PROPS = {
     "C17": {
+        "modules": ["C17", "Audit1"],
         "families_exhaustive": ["osub_all"],
         "families": ["osub", "unwrap", "accu"],
         "n_quick": 60000, "n_thorough": 600000,
@@ -17,6 +18,7 @@ PROPS = {
             "Unwrapper: returned value is the wrapped increment; accumulator = old + increment; reduces to the new sample (unwrapper_step, unwrapper_tracks_last)",
             "Unwrapper: wide output = old + running sum of increments modulo 2^bits(Q) for every sequence (unwrapper_sum), exactly while every prefix sum fits Q (unwrapper_sum_exact); widths 0 < bits(P) <= bits(Q), signed types",
             "Accu: n-th item = start + n*step mod 2^bits, iterator total (accu_nth)",
+            "after the claims audit (Props/Audit1.lean): if the TRUE unwrapped phase (old + sum of increments as unbounded integers) stays within Q's range over the run, the wide output equals it exactly after every prefix (aud_unwrapper_exact_run; the hypothesis is about the true phase only, not about the wrapped accumulator)",
         ],
         "clauses_explored": [],
         "level_text": "Every clause of the property is a kernel-checked theorem about the model, for all widths, pairs, sample sequences and (start, step, n); the model is tied to the crate by correspondence on 3.6e5 op lines per run and by a native oracle that is exhaustive for i8 (and i16 in the thorough tier).",
@@ -26,6 +28,7 @@ PROPS = {
 }
 
 PROPS["C18"] = {
+    "modules": ["C18", "Audit1"],
     "families": ["satscale"],
     "n_quick": 200000, "n_thorough": 2000000,
     "clauses_proved": [
@@ -35,6 +38,7 @@ PROPS["C18"] = {
         "monotone in (hi, lo) for 1 <= shift <= 16 (sat_scale_monotone_le16, stated on the closed form satScaleVal that sat_scale_eq_val proves equal to the model)",
         "NEGATION: not monotone for every shift 17..=32 (sat_scale_not_monotone_ge17, on the same closed form): known finding F-C18-a",
         "NEGATION: shift 32, hi = MIN saturates to 0 (sat_scale_shift32_min_is_zero): known finding F-C18-c",
+        "after the claims audit (Props/Audit1.lean): monotonicity for 1 <= shift <= 16 and its failure for every 17 <= shift <= 32 restated directly on the model function saturatingScale, both profiles (aud_sat_scale_monotone_le16_model, aud_sat_scale_not_monotone_ge17_model)",
     ],
     "clauses_explored": [],
     "level_text": "All clauses are kernel-checked theorems about the model for every shift and every (lo, hi); the monotonicity clause is proved for shift <= 16 and its negation is proved for every shift >= 17 (known finding, the code really is non-monotone there). Correspondence covers all shifts 0..=40 incl. contract violations in both profiles; the native oracle checks every clause on boundary lattices for all 32 shifts.",
@@ -82,23 +86,26 @@ PROPS["C01"] = {
     "rule": "quick: one phase per 256-block (2^24), closed under the half turn; thorough: all 2^32 phases; each phase checked for accuracy, range, three symmetries",
 }
 PROPS["C16"] = {
+    "modules": ["C16", "Audit1"],
     "families": ["dsm"],
     "n_quick": 100000, "n_thorough": 1000000,
     "clauses_proved": [
         "range invariant for every K <= 7, every invariant state, every input list; never panics; both profiles agree (dsm_range, dsm_range_step, dsm_range_from)",
         "output is the exact (unbounded) MASH-1^K value; run equals the unbounded specification, for K <= 7 from every invariant state (dsm_mash, dsm_mash_run)",
-        "error identity 2^32*sum(y) - sum(x) = function of the final state, for 1 <= K <= 7 and u32 inputs: within +-2^(K-1)*2^32 from Dsm::default() for every prefix (dsm_error_identity, dsm_error_step, dsm_err_bound, dsm_run_prefix), within twice that from an arbitrary invariant state (dsm_error_identity_from)",
+        "error identity 2^32*sum(y) - sum(x) = function of the final state, for 1 <= K <= 7 and u32 inputs: within +-2^(K-1)*2^32 from Dsm::default() for every prefix (dsm_error_identity, dsm_error_step, dsm_err_bound, dsm_run_prefix) and, by the sharper Audit1 theorems below, from every invariant state",
         "constant input mean bound, from Dsm::default() (dsm_const_input_mean)",
         "K = 8 characterised exactly: deviates only when the exact output is +128 (dsm_step_upto8, dsm_run_upto8); NEGATION witness dsm_k8_overflow_witness: known finding F-C16-b",
         "K = 0 returns 0 (dsm_k0_zero; after the fix: commit)",
+        "SHARPER after the claims audit (Props/Audit1.lean): from EVERY invariant state, 1 <= K <= 7, u32 inputs, the accumulated error 2^32 sum(y) - sum(x) lies strictly within +-2^(K-1)*2^32 - the factor 2 of dsm_error_identity_from is not needed, because the invariant confines the state term to half the range (aud_dsm_error_bound_from_sharp, aud_dsmErr_range; for the exact MASH outputs up to K = 8: aud_dsm_error_bound_from_sharp_exact_upto8); from the default state even +-2^(K-2)*2^32 (aud_dsm_error_bound_default_half)",
     ],
     "clauses_explored": [],
-    "level_text": "Every clause is a K-generic kernel-checked theorem over all input lists (no enumeration): the range and exact-value clauses from every invariant state, the accumulated-error and mean clauses from the default state (from an arbitrary invariant state with twice the bound); for K = 8 the exact deviation condition is proved and the property's failure is a proved negation with a 9-step witness (known finding).",
+    "level_text": "Every clause is a K-generic kernel-checked theorem over all input lists (no enumeration): the range and exact-value clauses from every invariant state, the accumulated-error bound from every invariant state (Audit1), the mean clause from the default state; for K = 8 the exact deviation condition is proved and the property's failure is a proved negation with a 9-step witness (known finding).",
     "level_note": "Model: Dsm.update (IdspModel/Model/Dsm.lean).",
     "rule": "sequences from default: constant, 1-4 bit lattices, carry alignments, random; all 4^6 (4^8 thorough) sequences on the 2-bit lattice for every K; compared with an unbounded reference MASH",
 }
 
 PROPS["C12"] = {
+    "modules": ["C12", "Audit1"],
     "families": ["cic_dec"],
     "n_quick": 100000, "n_thorough": 1000000,
     "clauses_proved": [
@@ -106,6 +113,7 @@ PROPS["C12"] = {
         "m-th output = wrapI w (boxcar_R^{*N} * x)(mR) for every N, R, w, input list (decimate_eq_fir, decimate_outputs); exact when it fits (decimate_exact_when_fits)",
         "gain() = (rate+1)^N when rate, rate+1 and (rate+1)^N are representable in the sample type (gain_eq: whenever the checked call returns; gain_ok: it does return then); gain_log2 upper bound, exact for power-of-two R (gainLog2_bound, gainLog2_exact)",
         "rate 0 is the identity for every N (decimate_rate0_identity); get_decimate = last output (getDecimate_eq)",
+        "after the claims audit (Props/Audit1.lean): gain does not depend on the filter state (aud_cic_gain_any_state); from ANY state with index i the decimator emits exactly at calls t with i <= t and (t - i) % R = 0 (aud_decimate_emit_times_any_state, aud_decimate_emit_times_offset, aud_decimate_tick_any_state)",
     ],
     "clauses_explored": [],
     "level_text": "Every clause is a theorem generic in the order N, the rate, the width and the input list, for runs from Cic::new(rate) (integrator wrap-around proved harmless via wrapI being a ring homomorphism; arbitrary in-range states: Props/C20c.lean).",
@@ -130,7 +138,7 @@ PROPS["C13"] = {
 }
 PROPS["C05"] = {
     "trusted_extra": ["Props/C03F.lean, Props/C04F.lean, Props/C05q.lean (QuantFl), Props/C08F.lean (FlModelD / FlModelDX: with division / with the exactness law), Props/C15F.lean, Props/C15Fc.lean and Props/C15Fs.lean take the standard model of floating-point arithmetic as a hypothesis (structure FlModel u: each + - x returns exact*(1+d), |d| <= u; FlModelU adds an absolute underflow term; FlModelX: representable exact results are returned exactly; max/min exact). That IEEE binary32/64 satisfies it with u = 2^-24 / 2^-53 absent overflow is assumed (Higham, Accuracy and Stability of Numerical Algorithms, Thm 2.2), not proved; the bit-level behaviour incl. NaN/inf is tied by the fbiquad correspondence over Lean Float32/Float, which trusts the Lean runtime's float primitives to be IEEE."],
-    "modules": ["C05", "C05q"],
+    "modules": ["C05", "C05q", "Audit1"],
     "families_exhaustive": ["num8_all"],
     "families": ["num"],
     "n_quick": 200000, "n_thorough": 2000000,
@@ -139,6 +147,7 @@ PROPS["C05"] = {
         "mul_scaled = floor((a*b + ONE/2)/ONE) reduced to w bits, i.e. equal to it when representable (mul_scaled_exact; e.g. (-128)*(-128) in Q2.6 wraps to 0), x*ONE = x (mul_scaled_one), div_scaled = truncated quotient reduced to w bits, b = 0 panics (div_scaled_exact)",
         "-2 exactly representable (neg_two_representable); clip (clip_spec)",
         "QUANTIZE (Props/C05q.lean), real-valued specification quantizeR w q v = satI w (roundHalfAway (v*2^q)) of `(value * 2^Q).round() as T`, all w, q: WHEN THE ROUNDED VALUE FITS w bits - nearest coefficient, |q - v 2^q| <= 1/2 and no integer is closer (quant_nearest, quant_nearest_unique), ties go away from zero (quant_ties_away); FOR EVERY REAL v - saturation to MIN/MAX and nearest element OF THE TYPE'S RANGE (quant_saturates, quant_saturates_nearest, quant_fits_of_range), monotone (quant_monotone); exact on every representable coefficient k/2^q, ONE, NEG_ONE and -2 -> MIN for the four types, +2 saturates to MAX (quant_exact_on_coefficients, quant_constants, quant_constants_instances); odd symmetry of the rounding, and of quantize when neither side saturates (quant_odd, quant_odd_quantize); coefficient error at most 2^-(q+1) when it fits (quant_scale_error); under the explicit float hypotheses QuantFl (FlModelX + IEEE round-to-integral exact on representable values; power-of-two scaling without overflow/underflow exact) the float pipeline equals quantizeR (quant_float_eq, quant_float_nearest)",
+        "STRENGTHENED after the claims audit (Props/Audit1.lean): macc in the checked profile returns IFF the exact total s + u ONE + e1 fits the accumulator type (aud_macc_checked_ok_iff); mul_scaled returns the unwrapped value floor((a b + ONE/2)/ONE) IFF -2^(w-1) ONE <= a b + ONE/2 < 2^(w-1) ONE, i.e. for the crate's Q2.x formats whenever the real product lies in [-2, 2) (aud_mul_scaled_value, aud_mul_scaled_value_of_small; wrap witness 127*127 in Q2.6 = -4: aud_mul_scaled_wraps_witness), div_scaled likewise with the exact representability condition of the quotient (aud_div_scaled_value, aud_div_scaled_value_of_small)",
     ],
     "clauses_explored": [
         "quantize on the real IEEE arithmetic (overflow to +-inf saturates, underflow, NaN -> 0 have no counterpart in the real-valued theorem): Lean Float transcription quantizeInt tied bit-exactly by the f_quantize correspondence; nearest-coefficient oracle natively for i16/i32/i64",
@@ -169,7 +178,7 @@ PROPS["C03"] = {
 }
 PROPS["C04"] = {
     "trusted_extra": ["Props/C03F.lean, Props/C04F.lean, Props/C05q.lean (QuantFl), Props/C08F.lean (FlModelD / FlModelDX: with division / with the exactness law), Props/C15F.lean, Props/C15Fc.lean and Props/C15Fs.lean take the standard model of floating-point arithmetic as a hypothesis (structure FlModel u: each + - x returns exact*(1+d), |d| <= u; FlModelU adds an absolute underflow term; FlModelX: representable exact results are returned exactly; max/min exact). That IEEE binary32/64 satisfies it with u = 2^-24 / 2^-53 absent overflow is assumed (Higham, Accuracy and Stability of Numerical Algorithms, Thm 2.2), not proved; the bit-level behaviour incl. NaN/inf is tied by the fbiquad correspondence over Lean Float32/Float, which trusts the Lean runtime's float primitives to be IEEE."],
-    "modules": ["C04", "C04F"],
+    "modules": ["C04", "C04F", "C04Fr"],
     "families": ["biquad", "fbiquad"],
     "n_quick": 150000, "n_thorough": 1500000,
     "clauses_proved": [
@@ -177,7 +186,8 @@ PROPS["C04"] = {
         "N = 4: state after two equal outputs under constant input is (x, x, lim, lim), independent of L; continuations identical (state4_after_two, no_windup4, no_windup4_recovery); N = 2 likewise (state2_after_two, no_windup2)",
         "N = 5: the four stored samples agree; continuation agrees given equal remainder (no_windup5_partial, no_windup5_recovery_partial)",
         "NEGATION: N = 5 response after saturation depends on L through the carried remainder (no_windup5_full_false): known finding F-C04",
-        "FLOAT sample types (Props/C04F.lean, over an abstract carrier with uninterpreted + - *, needing only three maxNum/minNum facts, so rounding, infinities and NaN samples are covered): every single output of N = 4, 5, 2 within non-NaN limits mn <= mx (fclip_in_limits, fbiquad_in_limits) and every output of every N = 4 run (fbiquad_run_in_limits); no wind-up for N = 4 (fbiquad4_no_windup) and the one-step form for N = 2 (fbiquad2_no_windup: equal second state word and equal output give the same next state; weaker than the integer run-level no_windup2)",
+        "FLOAT sample types (Props/C04F.lean, over an abstract carrier with uninterpreted + - *, needing only three maxNum/minNum facts, so rounding, infinities and NaN samples are covered): every single output of N = 4, 5, 2 within non-NaN limits mn <= mx (fclip_in_limits, fbiquad_in_limits) and every output of every N = 4 run (fbiquad_run_in_limits); no wind-up for N = 4 (fbiquad4_no_windup) and the one-step form for N = 2 (fbiquad2_no_windup; the run-level form is in Props/C04Fr.lean, next item)",
+        "FLOAT, RUN LEVEL (Props/C04Fr.lean, any carrier; limits under the three clamp laws, no law at all for the wind-up part): every output of every run of N = 4, 5 and 2 from every state lies within non-NaN limits, NaN / infinite samples included (fbq_run_in_limits, fbq_run5_in_limits, fbq_run2_in_limits); no wind-up at run level for all three forms: two saturation episodes of different lengths L1, L2 >= 2 from different states whose last two outputs sit on the limit end in the SAME state and continue identically (fbq_no_windup2, fbq_state2_after_two, fbq_no_windup4, fbq_no_windup45_recovery); unlike the fixed-point N = 5 form (finding F-C04) the float N = 5 form has no carried remainder and satisfies the clause in full (fbq_no_windup5). Equality is carrier equality (bit identity for f32/f64)",
     ],
     "clauses_explored": [
         "that Rust's f32/f64 max/min satisfy the three clamp laws (IEEE maxNum/minNum; tied bit-exactly through the fbiquad correspondence incl. NaN/infinite samples) and bit-identical recovery on the implementation (native)",
